@@ -694,12 +694,14 @@ def unitSpec (toks impl : List String) : Option (String × String) × List Strin
   | "ctor" :: rest =>
     match nats 4 rest with
     | some ([w, h, s, n], _) =>
-      let fitsU32 := h == 0 || (h - 1) * s + w < u32Lim
-      if !fitsU32 then (none, ["unit-ctor", "size-beyond-u32"])
-      else if holds w h s n then
-        (if isPanic tok then some ("ctor-rejects-valid", s!"({w},{h}) stride {s} over {n} gave {tok}") else none, ["unit-ctor", "valid"])
+      -- the size is computed in usize (7b7718a): judged for every size, also beyond u32
+      let bigTag := if h == 0 || (h - 1) * s + w < u32Lim then [] else ["size-beyond-u32"]
+      if holds w h s n then
+        (if isPanic tok then some ("ctor-rejects-valid", s!"({w},{h}) stride {s} over {n} gave {tok}") else none, ["unit-ctor", "valid"] ++ bigTag)
       else
-        (if isPanic tok then none else some ("ctor-accepts-invalid", s!"({w},{h}) stride {s} over {n} accepted"), ["unit-ctor", "invalid"])
+        (if isPanic tok then none
+         else some (if bigTag.isEmpty then "ctor-accepts-invalid" else "ctor-size-u32-wrap", s!"({w},{h}) stride {s} over {n} accepted"),
+         ["unit-ctor", "invalid"] ++ bigTag)
     | _ => (none, [])
   | "new" :: rest =>
     match nats 2 rest with
